@@ -133,6 +133,22 @@ def _case(draw, n_hi, mazes_hi, modes, max_procs):
     return case
 
 
+def _large_cases(count):
+    """grids beyond 128 cells per side (coordinates no longer fit the int8 width some arrays are stored with); endpoints are pinned so
+    that generation never has to be discarded, specs are derived from VERIF_SEED"""
+    def cases(shard, nshards):
+        for k in range(count):
+            if k % nshards != shard:
+                continue
+            sd = core.derive_seed(core.SEED, "C03-large", k)
+            n = [130, 129, 140, 133, 150, 128][k % 6]
+            far = [[n - 10, n - 10], [127, 127], [n - 1, n - 1], [120, 120], [n - 2, 5], [100, 127]][k % 6]
+            yield {"mode": "serial", "spec": {"name": "big", "grid_n": n, "n_mazes": 1, "ctor": ["gen_dfs", "gen_dfs", "gen_dfs_percolation"][k % 3], "kwargs": {} if k % 3 != 2 else {"p": 0.05},
+                                              "seed": sd % (2**31), "endpoint": {"allowed_start": [[0, 0]], "allowed_end": [far]}}}
+
+    return cases
+
+
 def subs(tier: str):
     q = tier == "quick"
     return [
@@ -140,6 +156,7 @@ def subs(tier: str):
         # parallel generation must be started from a top-level process (the library's worker initializer rejects nested process
         # identities) and multiprocessing.Pool teardown can dead-lock after a worker error: the sub-check therefore runs in fresh
         # interpreters, a chunk of cases at a time, each chunk under a wall limit (a hung chunk is killed and counted, not an alarm)
+        Sub("grids-beyond-128", check, "exhaustive", cases=_large_cases(6 if q else 24)),
         Sub("parallel-inner", check, "hypothesis", strategy=lambda: _case(6 if q else 10, 12, ["parallel"], 4 if q else 8), examples=50, shards=1, hidden=True),
         Sub("parallel", check, "custom", run=core.hypothesis_in_fresh_interpreters("C03", tier, "parallel-inner", "parallel", 50 if q else 500, 50 if q else 100, 900)),
     ]
